@@ -586,6 +586,34 @@ def run_long(ctx, R, L):
             L.generate(rng.choice([33, 64, 65, 96, 97, 200, 1000]), tag="injected|hashgen-ripple")
     idx += 1
 
+    # rand_check: "raises an exception in case a string of identical bytes is found" (threshold undocumented: only
+    # unmistakable inputs are judged - 32 or more identical bytes must be reported, pairwise distinct neighbours must not)
+    if ctx.mine(idx):
+        bufs = [("all-identical", bytes([0xAB]) * 64, True), ("run-at-end", rbytes(rng, 32) + bytes(32), True),
+                ("run-at-start", bytes([7]) * 32 + bytes(range(32)), True),
+                ("run-in-middle", bytes(range(16)) + bytes([0xFF]) * 32 + bytes(range(16)), True),
+                ("no-repeats", bytes(range(64)), False), ("generator-output", None, False)]
+        for name, data, stuck in bufs:
+            if data is None:
+                data = drbg.HashDRBG(rbytes(rng, 32)).generate(64)
+                if any(data[i] == data[i + 1] == data[i + 2] for i in range(62)):
+                    continue
+            key = "rand_check|" + name
+            if not ctx.begin(key, {"data": data.hex()}):
+                continue
+            try:
+                p = R.put(data)
+                r = R.call("rand_check", p, len(data))
+                flagged = bool(r.caught) or r.i == R.K["RLC_ERR"]
+                ctx.check(flagged == stuck, key + ("|not-reported" if stuck else "|false-alarm"), {"ret": r.i, "caught": r.caught})
+                ctx.check(R.get(p, len(data)) == data, key + "|buffer-modified", None)
+                R.free(p)
+            except MonitorViolation as e:
+                ctx.fail(key + "|" + e.kind, e.detail)
+            finally:
+                ctx.end()
+    idx += 1
+
     # known class (DESIGN 6 #8) made reachable without a long history: injected counter at the int16 boundary
     if ctx.mine(idx):
         L.hist = "injected-counter"
